@@ -208,3 +208,21 @@ Theorem staging_files_start_empty :
   forallb Stmts.Model.staging_open_ok Gen.FsSites.sites = true.
 Proof. exact Stmts.Proofs.staging_files_start_empty_lemma. Qed.
 Print Assumptions staging_files_start_empty.
+
+(** * The legacy (v0.3.x) restore path under download faults (V3/Faults.v; tie: harness v3 -faultonly,
+      oracle v3_fault_ok): a read error in any segment download makes applyWALSegmentsV3 fail, so
+      RestoreV3 returns the error and its deferred removal of the staging file leaves nothing at the
+      output path; with complete downloads the loop is exactly the planner C19's theorems are about. *)
+From LS Require V3.Restore V3.Faults.
+
+Theorem legacy_read_error_fails : forall si (segs : list (Restore.seg * Faults.dl)),
+  Exists (fun p => Faults.d_err (snd p) = true) segs ->
+  exists e, Faults.apply_segs_dl si segs = inl e.
+Proof. exact Faults.v3_read_error_fails_lemma. Qed.
+Print Assumptions legacy_read_error_fails.
+
+Theorem legacy_complete_downloads_follow_plan : forall si (segs : list (Restore.seg * Faults.dl)),
+  List.forallb Faults.complete segs = true ->
+  Faults.erase (Faults.apply_segs_dl si segs) = Restore.apply_segs si (map fst segs).
+Proof. exact Faults.v3_complete_downloads_follow_plan_lemma. Qed.
+Print Assumptions legacy_complete_downloads_follow_plan.
